@@ -140,7 +140,7 @@ def record_decode(rid, payload, labelmsm=1, via="ctor", fields=None, frame=None,
             if msg is None:
                 raise RuntimeError("reader returned no message")
     except BaseException as err:  # pylint: disable=broad-except
-        if isinstance(err, (KeyboardInterrupt, SystemExit, MemoryError)):
+        if isinstance(err, (KeyboardInterrupt, SystemExit, MemoryError, common.Watchdog)):
             raise
         rec["out"] = "raise"
         rec["cls"] = type(err).__name__
@@ -159,6 +159,33 @@ def record_decode(rid, payload, labelmsm=1, via="ctor", fields=None, frame=None,
         rec["cls"] = "post:" + type(err).__name__
         rec["lib"] = False
     return rec, msg
+
+
+def record_of_message(rid, payload, msg, labelmsm=1, fields=None):
+    """
+    Decode record built from a message object that the READER returned for the frame slice
+    whose payload is `payload` (composition Framer o Decode): the judge decodes `payload`
+    and compares with what the object shows.
+    """
+    if fields is None:
+        from pyrtcm.rtcmtypes_core import RTCM_DATA_FIELDS as fields  # noqa: N811
+    rec = {
+        "rid": rid, "p": list(payload), "lab": lab_of(labelmsm), "out": "msg", "lib": True, "cls": "", "ident": "",
+        "attrs": [], "scaled": True, "scalebad": "", "lbl": True, "via": "ctor", "frame": [], "validate": 1, "ops": [], "sd": "",
+    }
+    try:
+        rec["ident"] = str(msg.identity)
+        for name, v in public_attrs(msg):
+            a, ok = project_attr(name, v, fields)
+            rec["attrs"].append(a)
+            if not ok and rec["scaled"]:
+                rec["scaled"] = False
+                rec["scalebad"] = name
+    except BaseException as err:  # pylint: disable=broad-except
+        rec["out"] = "raise"
+        rec["cls"] = "post:" + type(err).__name__
+        rec["lib"] = False
+    return rec
 
 
 def crc24q(data: bytes) -> int:
